@@ -30,6 +30,8 @@ ENCODED = [
     "tdgl.parameter:CompositeParameter.__eq__",
     "tdgl.parameter:CompositeParameter.__getstate__",
     "tdgl.parameter:CompositeParameter.__setstate__",
+    "tdgl.solver.solver:TDGLSolver.__init__",
+    "tdgl.solver.solver:TDGLSolver.update_applied_vector_potential",
 ]
 BOUNDS = {
     "quick": dict(depth=2, trees="all depth-1 trees, depth-2 trees with one operator pair per shape", arguments=["scalar", "array(2)"]),
@@ -107,9 +109,121 @@ class _FakeHashlib:
 
 
 def patch_spec(case):
+    if case.params.get("kind") == "solver":
+        from . import solver_setup as S
+
+        spec = S.patch_spec()
+        spec["tdgl.parameter"]["hashlib"] = _FakeHashlib
+        return spec
     spec = engine.std_patch("tdgl.parameter")
     spec["tdgl.parameter"]["hashlib"] = _FakeHashlib
     return spec
+
+
+# --- vector-valued leaves for the hand-off to the solver (an applied vector potential returns (n, 3)) --------
+CONCRETE.update({
+    "ax": lambda x, y, z: 0.3 * np.sin(x) - 0.2 * y + 0.1 * z,
+    "ay": lambda x, y, z: 0.25 * np.cos(y) + 0.15 * x,
+    "bx": lambda x, y, z: 0.1 * x * y + 0.05,
+    "by": lambda x, y, z: -0.2 * x + 0.1 * np.sin(z + y),
+    "tx": lambda x, y, z, t: 0.1 * y * np.cos(0.7 * t) + 0.02 * t,
+    "ty": lambda x, y, z, t: -0.1 * x * np.sin(0.3 * t + 0.2),
+})
+
+
+def _vec(nx, ny, *args):
+    H = _MODE["H"]
+    vx, vy = _opaque(nx, *args), _opaque(ny, *args)
+    if H is not None and H.mode == "sym":
+        from symx import arr
+
+        n = len(vx)
+        out = np.empty((n, 3), dtype=object)
+        for i in range(n):
+            out[i, 0], out[i, 1], out[i, 2] = K.at(vx, i), K.at(vy, i), Sc.of(0.0)
+        return arr.SA(out)
+    return np.stack([vx, vy, np.zeros_like(vx)], axis=1)
+
+
+def vA(x, y, z):
+    return _vec("ax", "ay", x, y, z)
+
+
+def vB(x, y, z):
+    return _vec("bx", "by", x, y, z)
+
+
+def vT(x, y, z, *, t):
+    return _vec("tx", "ty", x, y, z, t)
+
+
+HANDOFF = {  # name -> (builder of the expression from leaves A, B, T and numbers c, d; oracle on values; time dependent)
+    "A": (lambda A, B, T, c, d: A, lambda a, b, t, c, d: a, False),
+    "A*c": (lambda A, B, T, c, d: A * c, lambda a, b, t, c, d: a * c, False),
+    "c*A": (lambda A, B, T, c, d: c * A, lambda a, b, t, c, d: c * a, False),
+    "A+B": (lambda A, B, T, c, d: A + B, lambda a, b, t, c, d: a + b, False),
+    "A/c-B*d": (lambda A, B, T, c, d: A / c - B * d, lambda a, b, t, c, d: a / c - b * d, False),
+    "T": (lambda A, B, T, c, d: T, lambda a, b, t, c, d: t, True),
+    "A+T": (lambda A, B, T, c, d: A + T, lambda a, b, t, c, d: a + t, True),
+    "T*c+A": (lambda A, B, T, c, d: T * c + A, lambda a, b, t, c, d: t * c + a, True),
+    "c*(A-T)+B/d": (lambda A, B, T, c, d: c * (A - T) + B / d, lambda a, b, t, c, d: c * (a - t) + b / d, True),
+    "(A+B)*(c)-(T+A)": (lambda A, B, T, c, d: (A + B) * c - (T + A), lambda a, b, t, c, d: (a + b) * c - (t + a), True),
+}
+
+
+def body_solver(H, case):
+    """'... and be handed to the solver like plain parameters': the real TDGLSolver constructor and
+    update_applied_vector_potential with an expression of vector-valued leaves as the applied potential"""
+    from tdgl.parameter import Parameter
+
+    from . import solver_setup as S
+
+    _MODE["H"] = H
+    if H.mode == "sym":
+        CTX.opaque_eval.update({k: (lambda *a, _f=v: float(np.asarray(_f(*[np.asarray(x, dtype=float) for x in a])).ravel()[0])) for k, v in CONCRETE.items()})
+    build, oracle, timedep = HANDOFF[case.expr]
+    c, d = 2.0, 1.5  # (Parameter arithmetic insists on plain numbers)
+    dev = S.symbolic_device(H, "bar0", case.seed, symbolic_mesh=False)
+    A, B, T = Parameter(vA), Parameter(vB), Parameter(vT, time_dependent=True)
+    expr = build(A, B, T, c, d)
+    opts = S.make_options(dt_init=0.01, dt_max=0.01, adaptive=False)
+    solver = S.make_solver(H, dev, opts, A=expr, validate=False)
+    H.prove(f"{case.expr}: the solver treats the potential as time dependent exactly when a leaf is", bool(solver.dynamic_vector_potential) == timedep)
+    xi = dev.coherence_length.magnitude
+    ec = xi * np.asarray(dev.mesh.edge_mesh.centers, dtype=float)
+    z0 = float(dev.layer.z0)
+    ne = len(ec)
+
+    def want(tt):
+        out = []
+        for e in range(ne):
+            x, y = float(ec[e, 0]), float(ec[e, 1])
+            row = []
+            for comp in (0, 1):
+                if H.mode == "sym":
+                    a = core.opaque_fn(("ax", "ay")[comp], x, y, z0)
+                    b = core.opaque_fn(("bx", "by")[comp], x, y, z0)
+                    t = core.opaque_fn(("tx", "ty")[comp], x, y, z0, tt)
+                else:
+                    a = float(CONCRETE[("ax", "ay")[comp]](x, y, z0))
+                    b = float(CONCRETE[("bx", "by")[comp]](x, y, z0))
+                    t = float(CONCRETE[("tx", "ty")[comp]](x, y, z0, tt))
+                row.append(solver.A_scale * oracle(a, b, t, c, d))
+            out.append(row)
+        return out
+
+    w0 = want(0.0)
+    for e in range(ne):
+        for comp in (0, 1):
+            H.prove_eq(f"{case.expr}: potential in use after construction, edge {e} component {comp} = A_scale * op(values of the leaves at t = 0)", K.at(solver.current_A_applied, e, comp), w0[e][comp])
+    if timedep:
+        for k in range(2):
+            tt = H.real(f"time{k}", lo=0.0, hi=5.0)
+            got = solver.update_applied_vector_potential(tt)
+            wt = want(tt)
+            for e in range(ne):
+                for comp in (0, 1):
+                    H.prove_eq(f"{case.expr}: potential at time t{k}, edge {e} component {comp} = A_scale * op(values of the leaves at that time)", K.at(got, e, comp), wt[e][comp])
 
 
 def leaf_specs():
@@ -153,6 +267,11 @@ def cases(tier, seed):
     d2 = [t for t in d2 if not degenerate(t)]
     subs = [t for t in subs if not degenerate(t)]
     out = [Case("depth1:all", trees=d1, seed=seed), Case("equality:keyword-arguments", trees=[], seed=seed, kind="kwargs")]
+    from symx import meshes
+
+    meshes.get_device("bar0", seed)
+    for e in HANDOFF:
+        out.append(Case(f"solver-hand-off:{e}", trees=[], seed=seed, kind="solver", expr=e))
     if tier == "quick":
         # every (outer op, leaf kind, side) x inner trees covering every inner op and every leaf pair class
         inner = [s for s in subs if s[1] in ("+", "*")] + [s for s in subs if s[2][1] == "Pt" or s[3][1] == "Pt"]
@@ -232,6 +351,8 @@ def body_kwargs(H, case):
 def body(H, case):
     if case.params.get("kind") == "kwargs":
         return body_kwargs(H, case)
+    if case.params.get("kind") == "solver":
+        return body_solver(H, case)
     import tdgl
     from tdgl.parameter import CompositeParameter, Parameter
 
